@@ -83,6 +83,8 @@ pub enum CertificateResolverError {
     ParsePem(CertificateError),
     #[error("error parsing overriding names in new certificate: {0}")]
     ParseOverridingNames(CertificateError),
+    #[error("certificate name '{0}' cannot be served (empty, leading '.', or contains '/')")]
+    InvalidName(String),
 }
 
 /// A wrapper around the Rustls
@@ -115,6 +117,17 @@ impl TryFrom<&AddCertificate> for CertifiedKeyWrapper {
         } else {
             add.certificate.names.clone()
         };
+
+        // The names become keys of the SNI trie. An empty name, a name with an
+        // empty left-most label (".example.org") or a '/' (the trie's regex
+        // syntax) makes `TrieNode::insert` panic or install a regex key:
+        // refuse the certificate instead of killing the worker.
+        if let Some(bad) = overriding_names
+            .iter()
+            .find(|n| n.is_empty() || n.starts_with('.') || n.contains('/'))
+        {
+            return Err(CertificateResolverError::InvalidName(bad.to_owned()));
+        }
 
         let expiration = add
             .expired_at
